@@ -69,6 +69,11 @@ PATTERNS['bracket_names'] = [
          extra=['Bvec[1]']),
     dict(its0=rng0(8, 12, 2), its1=rng0(8, 12, 1), chk=[],
          extra=['Bvec[0]', 'Bvec[2]', 'phi'])]
+PATTERNS['contained_names'] = [
+    dict(its0=rng0(0, 8, 2), its1=rng0(0, 8, 1), chk=[8],
+         extra=['K', 'Kxx', 'Kxy'], only=True),
+    dict(its0=rng0(8, 12, 2), its1=rng0(8, 12, 1), chk=[],
+         extra=['K', 'Kxx', 'Kxy'], only=True)]
 _PRISTINE = {}
 _CFG = None
 
@@ -93,8 +98,10 @@ def make_spec(name, pattern, layout, levels):
             its[1] = p['its1']
         restarts.append({'its': its, 'boxes': bx, 'checkpoints': p['chk'],
                          'checkpoint_files': p.get('chkfiles', 1),
-                         'variables': VARS + p.get('extra', []),
-                         'extra': p.get('extra', [])})
+                         'variables': (p['extra'] if p.get('only') else
+                                       VARS + p.get('extra', [])),
+                         'extra': p.get('extra', []),
+                         'only': p.get('only', False)})
     return {'simname': name, 'grouped': grouped, 'proc': proc, 'ghost': 1,
             'variables': VARS, 'shapes': SHAPES, 'restarts': restarts}
 
@@ -132,7 +139,8 @@ def truth_restart(spec, r):
     rs = spec['restarts'][r]
     out = {}
     if not rs.get('empty'):
-        out['var available'] = set(EXPECT_GROUPS) | set(rs.get('extra', []))
+        out['var available'] = (set() if rs.get('only') else
+                                set(EXPECT_GROUPS)) | set(rs.get('extra', []))
         allits = sorted(set(i for its in rs['its'].values() for i in its))
         out['its available'] = [allits[0], allits[-1]]
         for rl, its in rs['its'].items():
@@ -618,6 +626,8 @@ def plans(tier):
         cfgs.append((('sim', 'changing_group', lay, 1), 'full', 3))
     for lay in [(False, True), (True, True)]:
         cfgs.append((('sim', 'bracket_names', lay, 1), 'full', 3))
+    for lay in [(True, True), (True, False), (False, False)]:
+        cfgs.append((('sim', 'contained_names', lay, 1), 'full', 3))
     cfgs.append((('sim', 'three+noise', lay0, 2), 'full', 3))
     cfgs.append((('sim', 'singles+noise', (True, True), 1), 'full', 3))
     if tier == 'thorough':
